@@ -362,12 +362,20 @@ def resolve_dtype(dtype: Any | str | None, xp: Any) -> Any | None:
             )
 
     if is_torch_namespace(xp):
-        return dtype
+        if str(dtype).startswith("torch."):
+            return dtype
+        # A dtype object of another namespace (e.g. numpy.float32)
+        return resolve_dtype(_dtype_to_name(dtype), xp)
 
     try:
         return xp.dtype(dtype)
     except (AttributeError, TypeError, ValueError):
-        return dtype
+        # A dtype object of another namespace (e.g. torch.float32)
+        name = _dtype_to_name(dtype)
+        try:
+            return resolve_dtype(name, xp) if name else dtype
+        except ValueError:
+            return dtype
 
 
 def _dtype_to_name(dtype: Any | str | None) -> str | None:
